@@ -44,7 +44,7 @@ import sympy as sp  # noqa: E402
 from qrules.topology import create_isobar_topologies  # noqa: E402
 
 import frames  # noqa: E402
-from tie_C07 import data_to_topo, has_double, topo_to_data, variant  # noqa: E402
+from tie_C07 import data_to_topo, gen_histories, has_double, topo_to_data, variant  # noqa: E402
 
 from ampform.kinematics import HelicityAdapter  # noqa: E402
 from ampform.kinematics.angles import formulate_scattering_angle  # noqa: E402
@@ -281,12 +281,23 @@ def build_adapter(case):
     return adapter
 
 
-def check_case(case, momenta, n, rng_tol, M0):
+def check_case(case, momenta, n, rng_tol, M0, adapter=None, label=""):
     """-> (n_evaluations, n_illcond, failures[list of (signature, what, var)])"""
     fails = []
-    adapter = build_adapter(case)
+    if adapter is None:
+        adapter = build_adapter(case)
     registered = [topo_to_data(t) for t in adapter.registered_topologies]
     exprs = adapter.create_expressions()
+    # create_expressions() is a function of the registered set: a fresh adapter over the same set agrees
+    fresh = HelicityAdapter(list(adapter.registered_topologies)).create_expressions()
+    e_names, f_names = {str(k): v for k, v in exprs.items()}, {str(k): v for k, v in fresh.items()}
+    if set(e_names) != set(f_names):
+        miss = sorted(set(f_names) - set(e_names))
+        extra = sorted(set(e_names) - set(f_names))
+        fails.append(("create_not_function_of_registered_set",
+                      f"{label}create_expressions() of this adapter and of a fresh adapter over the same "
+                      f"{len(registered)} registered topologies differ: missing {miss[:6]} ({len(miss)}), extra {extra[:6]} "
+                      f"({len(extra)})", (miss + extra)[0]))
     by_name = {}
     for k in exprs:
         if str(k) in by_name:
@@ -360,6 +371,18 @@ def check_case(case, momenta, n, rng_tol, M0):
             else:
                 cmp(name, val, ora, tol, kind == "phi", "angle_not_documented_frame",
                     f"{kind} of p{'+p'.join(map(str, target))} after frames {fr}")
+            # every registered topology that documents this name must agree with the merged value
+            seen_specs = {(tuple(target), tuple(map(tuple, fr)))}
+            for (k2, tg2, fr2, _d2, _o2), _top in specs[name][1:]:
+                key2 = (tuple(tg2), tuple(map(tuple, fr2)))
+                if key2 in seen_specs:
+                    continue
+                seen_specs.add(key2)
+                fun3 = lambda mom, tg2=tg2, fr2=fr2, idx=idx: frames.angles_in_chain(mom, tg2, fr2)[idx]  # noqa: E731
+                ora3, tol3 = oracle_with_tol(fun3, momenta, rng_tol, kind == "phi")
+                cmp(name, val, ora3, tol3, kind == "phi", "name_denotes_two_quantities",
+                    f"another registered topology documents {name} as {kind} of p{'+p'.join(map(str, tg2))} after frames "
+                    f"{fr2}, the first one as {kind} of p{'+p'.join(map(str, target))} after frames {fr}")
         else:
             fails.append(("unknown_variable", f"unexpected variable {name}", name))
     for name in specs:
@@ -439,7 +462,8 @@ def check_case(case, momenta, n, rng_tol, M0):
 
 def run_case(case, want_cse_cross=True):
     rng = np.random.default_rng(case["event_seed"])
-    ids = sorted(i for i, o, e in case["init"][0]["edges"] if e is None)
+    topos_all = list(case["init"]) + [op[1] for op in case.get("ops", []) if op[0] == "register"]
+    ids = sorted({i for d in topos_all for i, o, e in d["edges"] if e is None})
     if "momenta" in case:
         momenta = {int(k): np.array([[float.fromhex(x) for x in row] for row in v]) for k, v in case["momenta"].items()}
         n = len(next(iter(momenta.values())))
@@ -448,6 +472,29 @@ def run_case(case, want_cse_cross=True):
         n = case["n_events"]
         momenta, M0 = gen_events(rng, ids, n, case["mode"], case["lab"])
     rng_tol = np.random.default_rng(case["event_seed"] + 1)
+    if case["kind"] == "history":
+        # one adapter through a sequence of operations; every create_expressions() is checked against the
+        # registered set at that moment (presence and value of every variable of every registered topology)
+        adapter = HelicityAdapter([data_to_topo(d) for d in case["init"]])
+        n_eval = n_ill = 0
+        fails = []
+        for k, op in enumerate(case["ops"]):
+            if op[0] == "permutate":
+                adapter.permutate_registered_topologies()
+            elif op[0] == "register":
+                try:
+                    adapter.register_topology(data_to_topo(op[1]))
+                except ValueError:
+                    pass  # refusing a topology is always allowed
+            else:
+                a, b, fs, _, _ = check_case(case, momenta, n, rng_tol, M0, adapter=adapter,
+                                            label=f"history {[o[0] for o in case['ops']]} op {k}: ")
+                n_eval += a
+                n_ill += b
+                fails += [(s_, f"history {[o[0] for o in case['ops']]} op {k}: " + w, v) for s_, w, v in fs]
+                if fails:
+                    break
+        return n_eval, n_ill, fails, momenta
     n_eval, n_ill, fails, got, tols = check_case(case, momenta, n, rng_tol, M0)
     if want_cse_cross and not fails and case.get("cross_cse"):
         other = dict(case, cse=not case["cse"])
@@ -524,6 +571,12 @@ def gen_cases(seed: int, n_cases: int):
     cases = corpus_cases(rnd) if n_cases >= 8 else []
     if n_cases >= 8:
         cases.append(aligned_case(rnd))
+        for h in gen_histories(rnd, max(3, n_cases // 12)):
+            if h["n"] == 4 and any(o[0] == "permutate" for o in h["ops"]):
+                continue  # 24+ four-body topologies in one lambdified dictionary: too slow for the numeric route
+            h.update({"dalitz": False, "cse": True, "cross_cse": False, "lab": bool(rnd.getrandbits(1)),
+                      "mode": "mixed", "n_events": 12, "event_seed": rnd.randrange(2 ** 31)})
+            cases.append(h)
     n_cases -= len(cases)
     kinds = ["single"] * 6 + ["multi"] * 2 + ["permutate", "dalitz", "dalitz", "isomorphic"]
     for c in range(n_cases):
